@@ -388,8 +388,9 @@ def rule_checked_read(m):
                                      'been tested: on a file cut inside a record the stale / indeterminate value becomes '
                                      'an edge' % (vname, kind, f.nloc(call), f.nloc(u))))
     # ---- end-of-file look-ahead: the int_type of peek() / get() is compared with EOF as an int, never through a char
-    for f in m.fns:
-        if not f.tname.startswith(IO) or f.is_lambda:
+    from .rules_ts import _fixture_functions, _fixture_verdict
+    for f in list(m.fns) + _fixture_functions('lookahead'):
+        if not (f.tname.startswith(IO) or 'fixture::' in f.tname) or f.is_lambda:
             continue
         tt = Terms(f)
 
@@ -422,6 +423,7 @@ def rule_checked_read(m):
                                      'converts to -1 and is taken for the end of the file, so loading stops silently at the first '
                                      'record that starts with that byte' % (f.expr_text(n['i'])[:60], f.unit.decl(narrowed[1])['ctype'],
                                                                               f.unit.decl(narrowed[1])['name'])))
+    _fixture_verdict(res, 'lookahead')
     # ---- the read primitive itself reports every short read
     for f in io_functions(m, READ):
         res.sites += 1
@@ -1160,12 +1162,16 @@ def rule_schema_binary(m):
         res.sites += 1
         tt = Terms(f)
         rc = [n for n in f.nodes if n['k'] == 'CallExpr' and 'callee' in n and
-              f.unit.decl(n['callee'])['tname'] in ('std::reverse_copy', 'std::reverse')]
+              f.unit.decl(n['callee'])['tname'] in ('std::reverse_copy', 'std::reverse', 'std::copy')]
         ok = len(rc) == 1
+        shape_known = ok
         if ok:
             a = [tt.t(x) for x in rc[0]['args']]
-            inplace = f.unit.decl(rc[0]['callee'])['tname'] == 'std::reverse'
-            ok = a[0][0] == 'mcall' and a[0][1].endswith('::begin') and a[1][0] == 'mcall' and a[1][1].endswith('::end') and \
+            cal = f.unit.decl(rc[0]['callee'])['tname']
+            inplace = cal == 'std::reverse'
+            # std::copy over the reversed source range is the same permutation as std::reverse_copy over the forward one
+            b_, e_ = ('::rbegin', '::rend') if cal == 'std::copy' else ('::begin', '::end')
+            ok = a[0][0] == 'mcall' and a[0][1].endswith(b_) and a[1][0] == 'mcall' and a[1][1].endswith(e_) and \
                 a[0][2] == a[1][2] and (inplace or (a[2][0] == 'mcall' and a[2][1].endswith('::begin') and a[2][2] != a[0][2]))
             assigns = [tt.t(n['i']) for n in f.nodes if n['k'] == 'BinaryOperator' and n['op'] == '=' or
                        (n['k'] == 'CXXOperatorCallExpr' and 'callee' in n and f.unit.decl(n['callee']).get('op') == '=')]
@@ -1176,7 +1182,8 @@ def rule_schema_binary(m):
                    if len(res.samples) < 6 else None, fn=f.display())
         else:
             res.fail(Finding('F-IO.SCHEMA.bin', f.display(), 'swapBytes', f.where(),
-                             'swapBytes does not reverse all sizeof(T) bytes of the value'))
+                             'swapBytes does not reverse all sizeof(T) bytes of the value' if shape_known else
+                             'expected swapBytes to reverse the bytes with one std::reverse_copy / std::reverse / std::copy over rbegin..rend'))
     for f in io_functions(m, IO + '_isSystemBigEndian'):
         res.sites += 1
         tt = Terms(f)
@@ -1601,8 +1608,12 @@ def rule_schema_text(m):
                 res.broken('F-IO.SCHEMA.text: the loader\'s comment character is not known, so the header line written by %s cannot be '
                            'compared with it' % disp)
                 continue
+            from .rules_pair import Ctx as _Ctx0
+            _pc0 = _Ctx0(m, f)
             for h in headers:
-                s = h[1][0] if h[1] else ('none',)
+                s = strip_cast(_pc0.unconst(h[1][0])) if h[1] else ('none',)
+                while s[0] in ('cast', 'conv') and len(s) > 2:
+                    s = strip_cast(s[2])
                 if not (s[0] == 'str' and comment and s[1].startswith(comment) and s[1].endswith('\n') and s[1].count('\n') == 1):
                     why = 'a line written outside the record loop does not start with the loader\'s comment character'
             if len(recs) != 1:
